@@ -284,6 +284,11 @@ def lattice_jobs(nsites, nframes=3):
         for method, md in (("overlap", None), ("distance", None), ("distance", 0.5), ("distance", 1.2)):
             for first in range(2**nsites):
                 jobs.append({"domain": f"lattice-1d-{nsites}sites-{nframes}frames", "nsites": nsites, "nframes": nframes, "periodic": per, "method": method, "max_dist": md, "first": first})
+    # the same structure with droplets of radius 1/2 exactly on the sites: neighbours touch exactly (distance = sum of the radii, all
+    # arithmetic exact), which is judged without any tolerance
+    for per in (False, True):
+        for first in range(2**nsites):
+            jobs.append({"domain": f"lattice-1d-{nsites}sites-exactly-touching", "nsites": nsites, "nframes": nframes, "periodic": per, "method": "overlap", "max_dist": None, "first": first, "exact": True})
     return jobs
 
 
@@ -316,6 +321,8 @@ def lattice_expand(job):
                 if (bits >> i) & 1:
                     jit = 0.02 * (((7 * i + 3 * k + i * k) % 5) - 2)  # deterministic, makes distances distinct
                     r = 0.85 if (k == 1 and (i + k) % 2 == 0) else 0.3  # big droplets overlap their neighbours
+                    if job.get("exact"):
+                        jit, r = 0.0, (0.75 if (k == 1 and i % 3 == 0) else 0.5)  # 0.5: touches its neighbours exactly; 0.75 + 0.5 overlaps them
                     fr.append({"cls": "SphericalDroplet", "position": [i + 0.5 + jit], "radius": r})
             frames.append(fr)
         yield {
@@ -327,6 +334,7 @@ def lattice_expand(job):
             "frames": frames,
             "method": job["method"],
             "max_dist": job["max_dist"],
+            **({"exact": True} if job.get("exact") else {}),
         }
 
 
